@@ -148,7 +148,11 @@ def make_source(kind, data, fmt, tmpdir, rng):
         return RawAudioSource(path, rate, width, channels), cleanup_fifo
     if kind == "stdin":
         old = sys.stdin
-        ps = PipeStdin(data, rng)
+        if rng.random() < 0.3:
+            ps = PipeStdin(data, rng, header=b"#audio rate=%d width=%d channels=%d\n" % (rate, width, channels))
+            ps.consume_header()
+        else:
+            ps = PipeStdin(data, rng)
         sys.stdin = ps
         try:
             src = StdinAudioSource(rate, width, channels)
